@@ -141,3 +141,19 @@ Theorem c09_pem_encrypted_no_fault : forall haspw buf limit,
      (k = 0 /\ iv = []) \/ (k = 1 /\ lenN iv = 8 /\ lenN out mod 8 = 0) \/ (k = 2 /\ lenN iv = 16 /\ lenN out mod 16 = 0)).
 Proof. exact p09_pem_encrypted_no_fault. Qed.
 Print Assumptions c09_pem_encrypted_no_fault.
+
+(* the revoked-certificates loop of psX509ParseCRL (fixed code): safe and total on every byte string; the cursor
+   only moves forward and stays inside the CRL *)
+Theorem c09_crl_revoked_no_fault : forall buf endp p glen,
+  holds buf endp -> endp < two32 -> p <= endp ->
+  safe (crl_revoked buf endp p glen) /\
+  (forall serials p', crl_revoked buf endp p glen = Ok (serials, p') -> p <= p' /\ p' <= endp).
+Proof. exact p09_crl_revoked_no_fault. Qed.
+Print Assumptions c09_crl_revoked_no_fault.
+
+(* the code before C09-crl-revoked-entry-underflow.patch: `p += ilen - (uint32)(p - start)` wraps and the next read is
+   4 GB outside the CRL *)
+Theorem c09_crl_revoked_unfixed_refuted : exists buf,
+  crl_revoked_unfixed buf (lenN buf) 0 (lenN buf) = Fault /\ crl_revoked buf (lenN buf) 0 (lenN buf) = Err c_PS_PARSE_FAIL.
+Proof. exact p09_crl_revoked_unfixed_refuted. Qed.
+Print Assumptions c09_crl_revoked_unfixed_refuted.
